@@ -1045,6 +1045,13 @@ class Sim:
                     st, eq = call(lambda: obj == build(m3))
                     if st == "exc" or eq is not False:
                         self.fail("model:eq-true-for-different-container", what="one more atom", got=eq if st == "ok" else exc_name(eq), **where)
+            if self.step % 5 == 2:
+                # the documented parameter of equal_annotations(): NaN values count as equal only if asked for
+                has_nan = any(isinstance(v, float) and v != v for vals in m.ann.values() for v in vals)
+                for flag, want in ((True, True), (False, not has_nan)):
+                    st, eq = call(lambda: obj.equal_annotations(ref, equal_nan=flag))
+                    if st == "exc" or bool(eq) is not want:
+                        self.fail("model:equal_annotations-equal_nan", equal_nan=flag, has_nan=has_nan, got=eq if st == "ok" else exc_name(eq), **where)
             if self.step % 5 == 1:
                 # a container that differs in exactly one other respect must be unequal too, whichever side it stands
                 # on: box present / absent, one box entry, one annotation value, bonds present / absent, one bond
